@@ -290,6 +290,9 @@ class Inv:
         if own and d0 <= self.tol:
             self.chk("element-area-covered-by-its-lookup", res[own] is not None, lookup=own, element=e.uid,
                      point=[_f(p[0]), _f(p[1])], distance=_f(d0))
+        if isinstance(e, rd.Intersection) and d0 == 0:  # documented priority of elementAt; not part of the statement
+            self.st["priority:intersection-first" if isinstance(res["elementAt"], rd.Intersection)
+                    else "unjudged:elementAt-not-intersection-inside-intersection"] += 1
         drivable = isinstance(e, (rd.Lane, rd.LaneSection, rd.LaneGroup, rd.Road, rd.RoadSection, rd.Intersection))
         if drivable and d0 == 0:
             self.chk("drivable-area-covered-by-lookups",
@@ -300,6 +303,29 @@ class Inv:
                     self.st["unjudged:none-from-" + two] += 1
         else:
             self.st["unjudged:point-not-in-drivable-element"] += 1
+
+    def drivable_point(self, a, b):
+        """Look-ups at a point of the network's drivableRegion (not tied to any element)."""
+        dr = self.net.drivableRegion.polygons
+        g = dr.geoms[a % len(dr.geoms)]
+        ring = g.exterior.coords
+        v, r = ring[(a // 5) % len(ring)], g.representative_point()
+        t = (b % 64) / 64.0
+        q = sg.Point(r.x + t * (v[0] - r.x), r.y + t * (v[1] - r.y))
+        if dr.distance(q) > 0:
+            q = r
+        p = (float(q.x), float(q.y))
+        got = {n: getattr(self.net, n)(p) for n in ("roadAt", "intersectionAt", "elementAt", "laneAt")}
+        self.chk("drivable-area-covered-by-lookups", got["roadAt"] is not None or got["intersectionAt"] is not None,
+                 element="drivableRegion", point=[_f(p[0]), _f(p[1])], got={k: _uid(v) for k, v in got.items()})
+        for n, r in got.items():
+            if r is None:
+                self.st[("unjudged:drivable-point-none-from-" if n == "elementAt" else "lookup-none:") + n] += 1
+            else:
+                d = r.polygons.distance(q)
+                self.chk("lookup-result-contains-point-within-tolerance", d <= self.tol + EPS, lookup=n,
+                         point=[_f(p[0]), _f(p[1])], result=r.uid, distance=_f(d), tolerance=self.tol,
+                         seed_element="drivableRegion")
 
     def point_in(self, e, kind, a, b):
         """A point of element e (deterministic in kind,a,b); falls back to the representative point."""
